@@ -94,6 +94,43 @@ void h_k1m (void)
     }
     VF_END ();
 }
+/* KV1: in-place element operation, direct accessors: a[k] = vop (a[k], b[k]) */
+void h_kv1 (void)
+{
+    SETUP ();
+    struct KV1 t; memset (&t, 0, sizeof t);
+    t.access._ptr = R; t.access._base._ptr = R; t.access._base._stride = 1; t.arg1._ptr = B; t.arg1._stride = 1;
+    F_kv1_execute (&t, in_start, in_end);
+    for (unsigned long k = 0; k < NB; k++)
+    {
+        if (k >= in_start && k < in_end) VF_ASSERT (R[k] == VFVOP (in_r[k], in_b[k]), "in-place op: a[k] = apply(a[k], b[k]) for start <= k < end");
+        else VF_ASSERT (R[k] == in_r[k], "untouched outside [start, end)");
+        VF_ASSERT (B[k] == in_b[k], "argument never written");
+    }
+    VF_END ();
+}
+/* KMV1: in-place op on a masked reference a[mask] with an argument of the UNMASKED length: a[idx[j]] = vop (a[idx[j]], b[idx[j]]) */
+void h_kmv1 (void)
+{
+    SETUP ();
+    for (int i = 0; i < NB; i++) for (int j = 0; j < i; j++) VF_ASSUME (IDX[i] != IDX[j]);
+    struct FixedArray_int fa; memset (&fa, 0, sizeof fa);
+    fa._ptr = R; fa._length = in_len; fa._stride = 1; fa._writable = 1; fa._indices.px = IDX; fa._unmaskedLength = NB;
+    struct KMV1 t; memset (&t, 0, sizeof t);
+    t.access._ptr = R; t.access._base._ptr = R; t.access._base._stride = 1; t.access._base._indices.px = IDX;
+    t.arg1._ptr = B; t.arg1._stride = 1; t.array = &fa;
+    cxx2c_thrown = 0;
+    F_kmv1_execute (&t, in_start, in_end);
+    for (unsigned long k = 0; k < NB; k++)
+    {
+        _Bool hit = 0;
+        for (unsigned long j = in_start; j < in_end && j < NB; j++) if (in_idx[j] == k) hit = 1;
+        if (hit) VF_ASSERT (R[k] == VFVOP (in_r[k], in_b[k]), "masked in-place op: a[indices[j]] = apply(a[indices[j]], b[indices[j]]) - the argument is indexed by the RAW position");
+        else VF_ASSERT (R[k] == in_r[k], "positions not selected by [start,end) untouched");
+        VF_ASSERT (B[k] == in_b[k], "argument never written");
+    }
+    VF_END ();
+}
 /* partition lemma on the real kernel: any split point, either order == one call over the whole range */
 void h_partition (void)
 {
